@@ -849,3 +849,130 @@ func (p *Program) DaemonReachable() map[*ssa.Function]bool {
 	p.daemon = seen
 	return seen
 }
+
+// GuardedByAny reports whether every path from entry to block b traverses at
+// least one branch edge whose (normalised, expanded) condition satisfies pred.
+func GuardedByAny(b *ssa.BasicBlock, pred func(Cond) bool) bool {
+	fn := b.Parent()
+	cut := func(from *ssa.BasicBlock, i int) bool {
+		ifi, ok := from.Instrs[len(from.Instrs)-1].(*ssa.If)
+		if !ok || from.Succs[0] == from.Succs[1] {
+			return false
+		}
+		for _, c := range expandCondNoDom(normCond(Cond{V: ifi.Cond, True: i == 0, If: ifi})) {
+			if pred(c) {
+				return true
+			}
+		}
+		return false
+	}
+	all := reachableAvoiding(fn, nil)
+	if !all[b] {
+		return false
+	}
+	return !reachableAvoiding(fn, cut)[b]
+}
+
+// expandCondNoDom is expandCond without the dominating conditions of the
+// predecessor (used where only the edge's own meaning matters).
+func expandCondNoDom(c Cond) []Cond {
+	out := []Cond{c}
+	phi, ok := c.V.(*ssa.Phi)
+	if !ok {
+		return out
+	}
+	live := -1
+	for i, e := range phi.Edges {
+		if k, isC := e.(*ssa.Const); isC && k.Value != nil && k.Value.Kind() == constant.Bool {
+			if constant.BoolVal(k.Value) != c.True {
+				continue
+			}
+		}
+		if live >= 0 {
+			return out
+		}
+		live = i
+	}
+	if live >= 0 {
+		if _, isC := phi.Edges[live].(*ssa.Const); !isC {
+			out = append(out, expandCondNoDom(normCond(Cond{V: phi.Edges[live], True: c.True, If: c.If}))...)
+		}
+	}
+	return out
+}
+
+// Loop is a natural loop of the CFG.
+type Loop struct {
+	Header *ssa.BasicBlock
+	Blocks map[*ssa.BasicBlock]bool
+}
+
+// Loops returns the natural loops of fn (one per header; back edges to the
+// same header are merged).
+func Loops(fn *ssa.Function) []*Loop {
+	byHeader := map[*ssa.BasicBlock]*Loop{}
+	var order []*ssa.BasicBlock
+	for _, t := range fn.Blocks {
+		for _, h := range t.Succs {
+			if !h.Dominates(t) {
+				continue
+			}
+			l := byHeader[h]
+			if l == nil {
+				l = &Loop{Header: h, Blocks: map[*ssa.BasicBlock]bool{h: true}}
+				byHeader[h] = l
+				order = append(order, h)
+			}
+			stack := []*ssa.BasicBlock{t}
+			for len(stack) > 0 {
+				x := stack[len(stack)-1]
+				stack = stack[:len(stack)-1]
+				if l.Blocks[x] {
+					continue
+				}
+				l.Blocks[x] = true
+				stack = append(stack, x.Preds...)
+			}
+		}
+	}
+	var out []*Loop
+	for _, h := range order {
+		out = append(out, byHeader[h])
+	}
+	return out
+}
+
+// InnermostLoop returns the smallest loop containing b, or nil.
+func InnermostLoop(loops []*Loop, b *ssa.BasicBlock) *Loop {
+	var best *Loop
+	for _, l := range loops {
+		if l.Blocks[b] && (best == nil || len(l.Blocks) < len(best.Blocks)) {
+			best = l
+		}
+	}
+	return best
+}
+
+// EarlyExits lists the edges that leave the loop from a block other than
+// its header (break / return / goto out of the body). Panicking blocks
+// (no successors, ending in Panic) are not exits.
+func (l *Loop) EarlyExits() []*ssa.BasicBlock {
+	var out []*ssa.BasicBlock
+	for b := range l.Blocks {
+		if b == l.Header {
+			continue
+		}
+		for _, s := range b.Succs {
+			if !l.Blocks[s] {
+				out = append(out, b)
+			}
+		}
+		if len(b.Succs) == 0 {
+			if _, isRet := b.Instrs[len(b.Instrs)-1].(*ssa.Return); isRet {
+				out = append(out, b)
+			}
+		}
+	}
+	sort.Slice(out, func(i, j int) bool { return out[i].Index < out[j].Index })
+	return out
+}
